@@ -131,6 +131,9 @@ func (fs *faultScript) answer(rq *fakelfs.Request) *fakelfs.Fault {
 		case "get-503-beyond-retries", "get-503-within-retries", "get-503-persistent", exhaustKind:
 			fs.note(v)
 			return &fakelfs.Fault{Status: 503}
+		case "get-404-persistent":
+			fs.note(v)
+			return &fakelfs.Fault{Status: 404}
 		case "get-reset":
 			fs.note(v)
 			return &fakelfs.Fault{Reset: true}
@@ -244,7 +247,7 @@ func (fp *faultPlan) scriptedAnswers(fr *rand.Rand) int {
 		return fp.Retries + 1
 	case exhaustKind:
 		return fp.Retries
-	case "get-503-persistent":
+	case "get-503-persistent", "get-404-persistent":
 		return 1 << 30
 	case "get-reset", "get-cut":
 		return 1 + fr.Intn(2)
